@@ -546,3 +546,173 @@ Definition S_connect_position_any_source : Prop :=
       (exists l', nodes_of g st' = (if front then nd :: l' else l' ++ [nd]) /\
                   map n_id l' = map n_id (nodes_of g st)) /\
       (forall j im, j <> i -> aget j (impls st) = Some im -> exists im', aget j (impls st') = Some im' /\ map n_id (i_nodes im') = map n_id (i_nodes im)).
+
+(* ------------------------------------------------------------------------------------------ *)
+(* C13: the accumulator's iterator range is exactly the start snapshot.
+   Snapshot semantics of the accumulator interpreter: cursors are *indices* into the list of node ids
+   present when the emission started (index = length means the end position, i.e. the placeholder);
+   ++ / -- move the index; dereferencing looks the element up in the state at that moment. *)
+Section AccSnapshot.
+  Variable rec : callee -> state -> outcome N.
+
+  Record icursor := mkIC { ic_pos : nat; ic_invoked : bool; ic_buf : N }.
+
+  Definition ic_deref (i : N) (snap : list nid) (arg : N) (c : icursor) (st : state) : outcome icursor :=
+    match nth_error snap (ic_pos c) with
+    | None => Done st c                                    (* the end position: an empty, never invoked slot *)
+    | Some n =>
+        match get_sb (LNode i n) st with
+        | None => Fail ErrDangling
+        | Some sb =>
+            if negb (sb_empty sb) && negb (sb_blocked sb) && negb (ic_invoked c)
+            then match invoke_at rec (LNode i n) arg st with
+                 | Done st1 v => Done st1 (mkIC (ic_pos c) true v)
+                 | Thrown st1 => Thrown st1
+                 | Fail e => Fail e
+                 end
+            else Done st c
+        end
+    end.
+
+  Fixpoint ic_walk (fuel : nat) (i : N) (snap : list nid) (arg : N) (z : option N) (c : icursor) (a : N) (st : state)
+    : outcome (icursor * N) :=
+    if Nat.eqb (ic_pos c) (length snap) then Done st (c, a) else
+    match fuel with
+    | O => Fail ErrLoop
+    | S fuel' =>
+        match ic_deref i snap arg c st with
+        | Done st1 c1 =>
+            let a1 := acc_step a (ic_buf c1) in
+            let c2 := mkIC (S (ic_pos c1)) false (ic_buf c1) in
+            if match z with Some zz => N.ltb zz (ic_buf c1) | None => false end
+            then Done st1 (c2, a1)
+            else ic_walk fuel' i snap arg z c2 a1 st1
+        | Thrown st1 => Thrown st1
+        | Fail e => Fail e
+        end
+    end.
+
+  Fixpoint ic_walk_rev (fuel : nat) (i : N) (snap : list nid) (arg : N) (c : icursor) (a : N) (st : state)
+    : outcome (icursor * N) :=
+    match ic_pos c with
+    | O => Done st (c, a)
+    | S k =>
+        match fuel with
+        | O => Fail ErrLoop
+        | S fuel' =>
+            let c1 := mkIC k false (ic_buf c) in
+            match ic_deref i snap arg c1 st with
+            | Done st1 c2 => ic_walk_rev fuel' i snap arg c2 (acc_step a (ic_buf c2)) st1
+            | Thrown st1 => Thrown st1
+            | Fail e => Fail e
+            end
+        end
+    end.
+
+  Definition ic_get (k : N) (fc lc : icursor) (cs : list (N * icursor)) : icursor :=
+    if N.eqb k 0 then fc else if N.eqb k 1 then lc else match aget k cs with Some c => c | None => fc end.
+
+  Fixpoint ic_run (n : nat) (i : N) (snap : list nid) (arg : N) (fc lc : icursor) (ops : list accop)
+           (cs : list (N * icursor)) (a : N) (st : state) : outcome N :=
+    match ops with
+    | [] => Done st a
+    | o :: rest =>
+        let getc k := ic_get k fc lc cs in
+        match o with
+        | ACopy k j =>
+            if writable k then ic_run n i snap arg fc lc rest (aset k (getc j) cs) a st
+            else ic_run n i snap arg fc lc rest cs a st
+        | AInc k =>
+            if writable k && negb (Nat.eqb (ic_pos (getc k)) (ic_pos lc))
+            then ic_run n i snap arg fc lc rest (aset k (mkIC (S (ic_pos (getc k))) false (ic_buf (getc k))) cs) a st
+            else ic_run n i snap arg fc lc rest cs a st
+        | ADec k =>
+            if writable k && negb (Nat.eqb (ic_pos (getc k)) (ic_pos fc))
+            then ic_run n i snap arg fc lc rest (aset k (mkIC (pred (ic_pos (getc k))) false (ic_buf (getc k))) cs) a st
+            else ic_run n i snap arg fc lc rest cs a st
+        | ADeref k =>
+            if writable k && negb (Nat.eqb (ic_pos (getc k)) (ic_pos lc)) then
+              match ic_deref i snap arg (getc k) st with
+              | Done st1 c => ic_run n i snap arg fc lc rest (aset k c cs) (acc_step a (ic_buf c)) st1
+              | Thrown st1 => Thrown st1
+              | Fail e => Fail e
+              end
+            else ic_run n i snap arg fc lc rest cs a st
+        | AWalk k =>
+            if writable k then
+              match ic_walk n i snap arg None (getc k) a st with
+              | Done st1 (c, a1) => ic_run n i snap arg fc lc rest (aset k c cs) a1 st1
+              | Thrown st1 => Thrown st1
+              | Fail e => Fail e
+              end
+            else ic_run n i snap arg fc lc rest cs a st
+        | AWalkUntil k z =>
+            if writable k then
+              match ic_walk n i snap arg (Some z) (getc k) a st with
+              | Done st1 (c, a1) => ic_run n i snap arg fc lc rest (aset k c cs) a1 st1
+              | Thrown st1 => Thrown st1
+              | Fail e => Fail e
+              end
+            else ic_run n i snap arg fc lc rest cs a st
+        | AWalkRev k =>
+            if writable k then
+              match ic_walk_rev n i snap arg (mkIC (ic_pos lc) false (ic_buf lc)) a st with
+              | Done st1 (c, a1) => ic_run n i snap arg fc lc rest (aset k c cs) a1 st1
+              | Thrown st1 => Thrown st1
+              | Fail e => Fail e
+              end
+            else ic_run n i snap arg fc lc rest cs a st
+        end
+    end.
+End AccSnapshot.
+
+(* emission of an accumulated signal, written over snapshot indices *)
+Definition spec_emit_acc (prog : program) (rec : callee -> state -> outcome N) (g arg : N) (st : state) : outcome N :=
+  match live_sig g st with
+  | None => Fail ErrUnsupported
+  | Some go =>
+      match gk_acc (g_kind go) with
+      | None => Fail ErrUnsupported
+      | Some a =>
+          let ops := match aget a (p_accs prog) with Some l => l | None => [] end in
+          match g_impl go with
+          | None => ic_run rec O 0 [] arg (mkIC O false 0) (mkIC O false 0) ops [] 0 st
+          | Some i =>
+              match aget i (impls st) with
+              | None => Fail ErrUAF
+              | Some im =>
+                  let snap := map n_id (i_nodes im) in
+                  with_frame i (fun _first _ph n st1 =>
+                                  ic_run rec n i snap arg (mkIC O false 0) (mkIC (length snap) false 0) ops [] 0 st1) st
+              end
+          end
+      end
+  end.
+
+(* the accumulator is called once, with a range covering exactly the slots present when the emission
+   started, in order, walkable in both directions; whatever the running slots do *)
+Definition S_acc_emit_is_snapshot : Prop :=
+  forall prog rec,
+    (forall c st, WF st -> out_ok st (rec c st)) ->
+    forall g arg st go a, WF st -> live_sig g st = Some go -> gk_acc (g_kind go) = Some a ->
+      emit_sig prog rec g arg st = spec_emit_acc prog rec g arg st.
+
+(* ------------------------------------------------------------------------------------------ *)
+(* C04 / C17: watch lists are exact on reachable states: a handle registered at an element points
+   at it, and at most once *)
+Definition watch_exact (st : state) : Prop :=
+  forall i im nd r w, aget i (impls st) = Some im -> In nd (i_nodes im) -> sb_rep (n_sb nd) = Some r ->
+    In w (r_watch r) -> conn_ptr w st = Some (i, n_id nd).
+
+Definition S_watch_exact : Prop :=
+  forall p fuel st, reachable p fuel st -> watch_exact st.
+
+(* with it, assignment from a connection to a scoped_connection needs no side condition *)
+Definition S_scoped_assign_disconnects_old_reachable : Prop :=
+  forall p fuel st, reachable p fuel st ->
+  forall prog rec k c st' i n im pc, get_connptr (WK k) st = Some (Some (i, n)) ->
+    get_connptr (WC c) st = Some pc -> pc <> Some (i, n) ->
+    aget i (impls st) = Some im ->
+    step prog rec (OKAssign k c) st = Done st' tt ->
+    conn_ptr (WK k) st' = pc /\
+    exists im', aget i (impls st') = Some im' /\ map n_id (i_nodes im') = map n_id (del_node n (i_nodes im)).
